@@ -240,8 +240,19 @@ impl Cfg {
             tick_ns: DT * NS,
         }
     }
+    /// An actor named "^X" is the account X spelled in upper case (voter lists naming one account twice)
     pub fn addr(&self, i: u8) -> String {
-        addr_cached(self.actors[i as usize])
+        let n = self.actors[i as usize];
+        match n.strip_prefix('^') {
+            Some(base) => addr_cached(base).to_uppercase(),
+            None => addr_cached(n),
+        }
+    }
+    pub fn canon(&self, i: u8) -> u8 {
+        match self.actors[i as usize].strip_prefix('^') {
+            Some(base) => self.actors.iter().position(|a| *a == base).map(|p| p as u8).unwrap_or(i),
+            None => i,
+        }
     }
     fn idx_of(&self, a: &str) -> Option<u8> {
         (0..self.actors.len() as u8).find(|i| self.addr(*i) == a)
@@ -936,7 +947,7 @@ impl Model for Cw3Model {
         let mut voters_map: BTreeMap<u8, u64> = BTreeMap::new();
         let mut dup = false;
         for (i, wg) in &cfg.voters {
-            if voters_map.insert(*i, *wg).is_some() {
+            if voters_map.insert(cfg.canon(*i), *wg).is_some() {
                 dup = true;
             }
         }
@@ -1299,7 +1310,9 @@ impl Model for Cw3Model {
                     }
                     match cfg.deposit {
                         Dep::Native { amount, .. } => {
-                            let exact = funds.len() == 1 && funds[0].0 == 0 && funds[0].1 as u128 == amount;
+                            // coins of amount zero carry nothing: what must be attached is exactly the deposit
+                            let paid: Vec<&(u8, u8)> = funds.iter().filter(|f| f.1 > 0).collect();
+                            let exact = paid.len() == 1 && paid[0].0 == 0 && paid[0].1 as u128 == amount;
                             if !exact {
                                 v.push(Violation::new("C15.propose_requires_exact_native_deposit", format!("{a:?} accepted, required exactly {amount}{DENOM}")));
                             }
